@@ -176,7 +176,7 @@ func (e *Exec) packVariadic(st *State, sliceT types.Type, vals []Value) Value {
 	if len(vals) == 0 {
 		return SliceVal{tZero, tZero, tZero, tZero, sliceT}
 	}
-	id := e.freshRef(st, "varargs")
+	id := e.freshArray(st, "varargs", et)
 	n := mkInt64(int64(len(vals)))
 	sv := SliceVal{Arr: id, Off: tZero, Len: n, Cap: n, Typ: sliceT}
 	for i, v := range vals {
@@ -1140,6 +1140,33 @@ func (e *Exec) evalAppend(st *State, call *ast.CallExpr) Value {
 			st.assume(mkForall([]*Term{k}, mkImplies(mkAnd(mkLe(tZero, k), mkLt(k, mkAdd(base.Len, n))),
 				mkEq(mkSelect(ni, k), mkIte(mkLt(k, base.Len), mkSelect(oldInner, mkAdd(base.Off, k)), strByte(s.T, mkSub(k, base.Len))))), mkSelect(ni, k)))
 			st.mem[key] = mkStore(m, id, ni)
+		} else if src0, ok := toSlice(srcV); ok && src0.Len.isInt() && src0.Len.Val.IsInt64() && src0.Len.Val.Int64() <= 8 {
+			// a source of known small length (a packed variadic argument): the same as appending its
+			// elements one by one - direct stores instead of a quantified copy
+			nv := src0.Len.Val.Int64()
+			if nv == 0 {
+				return base
+			}
+			nl := mkAdd(base.Len, mkInt64(nv))
+			for _, l := range ls {
+				key := fam + l.Path
+				m := st.memMap(key, l.Sort)
+				oldInner := mkSelect(m, base.Arr)
+				ni := e.nm.fresh("appended", SArray(l.Sort))
+				k := mkVar("k!a", SInt)
+				st.assume(mkForall([]*Term{k}, mkImplies(mkAnd(mkLe(tZero, k), mkLt(k, base.Len)),
+					mkEq(mkSelect(ni, k), mkSelect(oldInner, mkAdd(base.Off, k)))), mkSelect(ni, k)))
+				st.mem[key] = mkStore(m, id, ni)
+			}
+			nc := e.nm.fresh("cap", SInt)
+			st.assume(mkGe(nc, nl))
+			res := SliceVal{Arr: id, Off: tZero, Len: nl, Cap: nc, Typ: rt}
+			for i := int64(0); i < nv; i++ {
+				v := e.loadLoc(st, sliceElemLoc(src0, mkInt64(i)))
+				e.storeLoc(st, sliceElemLoc(res, mkAdd(base.Len, mkInt64(i))), v)
+			}
+			e.safety(st, "alloc", mkLe(nl, e.allocBound(st)), call)
+			return res
 		} else {
 			src, _ := toSlice(srcV)
 			n = src.Len
